@@ -1390,10 +1390,21 @@ fn gen_c07(rng: &mut Rng, out: &mut Vec<Case>) {
                     next_key += 1;
                     let e1 = gen_end(rng);
                     let e2 = gen_end(rng);
-                    ops.push(format!(
-                        "s1 begin ; s2 begin ; s1 ins u {} ; s2 ins u {} ; s1 {} ; db sel u ; s2 {} ; db sel u",
-                        c07_row(&sc, k), c07_row(&sc, k), e1, e2
-                    ));
+                    if !sc.multi && !live.is_empty() && rng.chance(1, 4) {
+                        // one of the two reaches the key by UPDATE: that key is not in its write set
+                        let from = *rng.pick(&live);
+                        ops.push(format!(
+                            "s1 begin ; s2 begin ; s1 upd u k set {} where v eq {} ; s2 ins u {} ; s1 {} ; db sel u ; s2 {} ; db sel u",
+                            k, 100 + from, c07_row(&sc, k), e1, e2
+                        ));
+                        extra.push("update_unique_col");
+                        extra.push("concurrent_key_update");
+                    } else {
+                        ops.push(format!(
+                            "s1 begin ; s2 begin ; s1 ins u {} ; s2 ins u {} ; s1 {} ; db sel u ; s2 {} ; db sel u",
+                            c07_row(&sc, k), c07_row(&sc, k), e1, e2
+                        ));
+                    }
                     extra.push("concurrent_same_key");
                 }
                 "reinsert_in_txn_rollback" if !live.is_empty() => {
@@ -1571,8 +1582,6 @@ fn gen_c07(rng: &mut Rng, out: &mut Vec<Case>) {
     // C07's feature → known-finding tag (the generic analysis of `finish` does not know the index features)
     let kf = if extra.contains(&"reinsert_deleted_unique_key") {
         Some("kf:reinsert_deleted_unique_key")
-    } else if extra.contains(&"concurrent_same_key") {
-        Some("kf:concurrent_same_key")
     } else if extra.contains(&"update_unique_col") {
         Some("kf:update_unique_col")
     } else {
